@@ -84,7 +84,12 @@ __CPROVER_requires(CE_FRESH && __CPROVER_is_fresh(wanted, sizeof(*wanted)) && wa
 __CPROVER_assigns()
 __CPROVER_ensures(__CPROVER_return_value ==> wanted->dir == (char)(self->raw_name_[7] & 0x7F))
 __CPROVER_ensures(__CPROVER_return_value ==> (wanted->name.n <= 7 && (g_k >= wanted->name.n || (LOW(wanted->name.d[g_k]) == LOW(NAME_CH(self, g_k)) && !NAME_STOP(self, g_k)))))
-__CPROVER_ensures(__CPROVER_return_value ==> (wanted->name.n == 7 || NAME_STOP(self, wanted->name.n)));
+__CPROVER_ensures(__CPROVER_return_value ==> (wanted->name.n == 7 || NAME_STOP(self, wanted->name.n)))
+/* ... and conversely (C01/C15: a catalogued file is found under its own directory and name, whatever the case of the letters in
+   the NAME; the directory character must be the same character): written out for the seven name positions */
+#define HN_M_(k) ((k) >= wanted->name.n || (LOW(wanted->name.d[k]) == LOW(NAME_CH(self, k)) && !NAME_STOP(self, k)))
+__CPROVER_ensures((wanted->dir == (char)(self->raw_name_[7] & 0x7F) && wanted->name.n <= 7 && HN_M_(0) && HN_M_(1) && HN_M_(2) && HN_M_(3) && HN_M_(4) && HN_M_(5) && HN_M_(6) &&
+                   (wanted->name.n == 7 || NAME_STOP(self, wanted->name.n))) ==> __CPROVER_return_value);
 
 void h_ci_comp(void) { ci_comp(nondet_uchar(), nondet_uchar()); }
 void h_ci_less(void) { const struct cstr *a, *b; case_insensitive_less(a, b); }
